@@ -383,18 +383,36 @@ def k_fs(c):
         if via_header and not fn.endswith('~'):
             return json.loads(data)['K']
         return data
+    MODES = [0o644, 0o755, 0o444, 0o600]
+    os.umask(0o022)
+    tdir = common.scratch_dir('c06tpl-')
+
+    def modes():
+        return {canon_name(fn): os.stat(os.path.join(d, fn)).st_mode & 0o777 for fn in os.listdir(d)}
     try:
         touched_all = []
         oracle = []
-        for op, i, cn in c['ops']:
+        for opt in c['ops']:
+            op, i, cn = opt[0], opt[1], opt[2]
+            tmode = MODES[opt[3]] if len(opt) > 3 else 0o644
             content = f'c{cn}'
             for fn in os.listdir(d):
                 os.utime(os.path.join(d, fn), (OLD, OLD))
             before = {canon_name(fn): read(fn) for fn in os.listdir(d)}
+            mbefore = modes()
             p = os.path.join(d, fname(i))
             if op == 'w':
                 with open(p, 'w', encoding='utf-8') as f:
                     f.write(text(i, content))
+            elif op == 't':
+                # real do_conf_file from a template with the given permission bits
+                tpl = os.path.join(tdir, 'tpl.in')
+                if os.path.exists(tpl):
+                    os.chmod(tpl, 0o644)
+                with open(tpl, 'w', encoding='utf-8') as f:
+                    f.write(text(i, content))
+                os.chmod(tpl, tmode)
+                U.do_conf_file(tpl, p, ConfigurationData(), 'meson')
             elif op == 'r':
                 if via_header and i not in fam_b:
                     cdata = ConfigurationData()
@@ -415,12 +433,15 @@ def k_fs(c):
             after = {canon_name(fn): read(fn) for fn in os.listdir(d)}
             touched_all.append(','.join(touched))
             oracle.append({'op': op, 'path': f'p{i}', 'content': content, 'before': before, 'after': after,
-                           'touched': touched, 'real_writer': op == 'r' or (op == 'x' and i in fam_b)})
-        final = sorted(f'{canon_name(fn)}={read(fn)}' for fn in os.listdir(d))
+                           'touched': touched, 'real_writer': op in ('r', 't') or (op == 'x' and i in fam_b),
+                           'mode_before': mbefore, 'mode_after': modes(), 'tmode': tmode})
+        ms = modes()
+        final = sorted(f'{canon_name(fn)}={read(fn)}@{ms[canon_name(fn)]}' for fn in os.listdir(d))
         r = ';'.join(touched_all) + '#' + ','.join(final)
     finally:
         common.rmtree(d)
-    return 'fs ' + ','.join(f'{op}:{i}:{cn}' for op, i, cn in c['ops']), r, oracle
+        common.rmtree(tdir)
+    return 'fs ' + ','.join(':'.join(str(x) for x in opt) for opt in c['ops']), r, oracle
 
 
 KINDS = {n[2:]: f for n, f in list(globals().items()) if n.startswith('k_')}
